@@ -328,6 +328,29 @@ def run_case(ctx, name, params):
             drawn = rr.last_sample if getattr(rr, "samples_drawn", 0) == before + 1 else None
             judge_select(ctx, pop, res, drawn, "direct")
             ctx.count("cases")
+        # the same design objects are evaluated again in place (swarm particles, noisy objectives, a robustness re-evaluation): the
+        # same selector object must follow the costs and labels the candidates carry NOW -- first with the labels of the earlier
+        # ranking still on them (equal labels may then hide a dominated candidate), then after ranking again
+        if len(pop) >= 2:
+            for phase in ("stale_labels", "ranked_again"):
+                if phase == "stale_labels":
+                    cs = [list(o.costs_signed) for o in pop]
+                    cs = cs[1:] + cs[:1] if r.random() < 0.5 else cs[::-1]
+                    for o, c in zip(pop, cs):
+                        o.costs_signed = c
+                        o.costs = list(c[:-1])
+                else:
+                    sel.fast_nondominated_sorting(pop)
+                for _ in range(6):
+                    before = getattr(rr, "samples_drawn", 0)
+                    try:
+                        res = sel.select(pop)
+                    except Exception as e:
+                        ctx.violation("select/exception", "select raised %r" % e, {"size": size, "phase": phase})
+                        return
+                    drawn = rr.last_sample if getattr(rr, "samples_drawn", 0) == before + 1 else None
+                    judge_select(ctx, pop, res, drawn, "re_evaluated_" + phase)
+                    ctx.count("select_calls_after_in_place_re_evaluation")
     elif name == "insitu":
         r = ctx.rng("is", params["seed"])
         setup = insitu.random_setup(r, algo=params["algo"], max_N=14, max_G=6,
